@@ -122,14 +122,16 @@ def tla(t):
         return f'[c |-> "result", ok |-> {tla(t[1])}, err |-> {tla(t[2])}]'
     if c == "tuple":
         return '[c |-> "tuple", es |-> <<' + ", ".join(tla(x) for x in t[1]) + ">>]"
+    # labels (field, case, flag and parameter names) are kebab labels: `URL` is the label `url`; the
+    # specification sees the folded spelling, the WAT rendering keeps the spelling as written
     if c == "record":
-        return '[c |-> "record", fs |-> <<' + ", ".join(f"[n |-> {q(n)}, v |-> {tla(v)}]" for n, v in t[1]) + ">>]"
+        return '[c |-> "record", fs |-> <<' + ", ".join(f"[n |-> {q(n.lower())}, v |-> {tla(v)}]" for n, v in t[1]) + ">>]"
     if c == "variant":
-        return '[c |-> "variant", cs |-> <<' + ", ".join(f"[n |-> {q(n)}, v |-> {tla(v)}]" for n, v in t[1]) + ">>]"
+        return '[c |-> "variant", cs |-> <<' + ", ".join(f"[n |-> {q(n.lower())}, v |-> {tla(v)}]" for n, v in t[1]) + ">>]"
     if c in ("enum", "flags"):
-        return f'[c |-> {q(c)}, ns |-> <<' + ", ".join(q(n) for n in t[1]) + ">>]"
+        return f'[c |-> {q(c)}, ns |-> <<' + ", ".join(q(n.lower()) for n in t[1]) + ">>]"
     if c == "fn":
-        ps = ", ".join(f"[n |-> {q(n)}, v |-> {tla(v)}]" for n, v in t[1])
+        ps = ", ".join(f"[n |-> {q(n.lower())}, v |-> {tla(v)}]" for n, v in t[1])
         return f'[c |-> "fn", ps |-> <<{ps}>>, r |-> {tla(t[2])}, async |-> {"TRUE" if t[3] else "FALSE"}]'
     if c == "inst":
         return '[c |-> "inst", ex |-> ' + fun(t[1]) + "]"
@@ -256,8 +258,12 @@ class Wat:
 
 def emit():
     kinds = []
+    # labels that differ in case only (appended: earlier kind numbers are quoted in evidence and seeds)
+    case_values = [("record", [("URL", U8)]), ("record", [("url", U8)]), ("variant", [("A", None), ("b", U8)]),
+                   ("enum", ["A", "b"]), ("flags", ["a", "B"]), ("record", [("a-URL", U8)]), ("record", [("a-url", U8)])]
+    case_funcs = [("fn", [("A", U8)], None, False), ("fn", [("a-URL", STR)], None, False), ("fn", [("a-url", STR)], None, False)]
     for cls, items in (("value", values_depth1() + values_depth2()), ("fn", funcs()), ("inst", instances()), ("comp", components()),
-                       ("mod", modules())):
+                       ("mod", modules()), ("value", case_values), ("fn", case_funcs)):
         for t in items:
             kinds.append((cls, t))
     t = ["---- MODULE Lib_types ----", "\\* GENERATED by lib/universe_types.py -- do not edit", "EXTENDS TLC, Integers"]
